@@ -504,12 +504,80 @@ def mut_arity(repo: Repo) -> List[Mutant]:
     return out
 
 
+def rule_get_or_create(repo: Repo) -> List[Ob]:
+    """a method that stores a FRESH name (get_unique_var / get_unique_name) in a table of the object under a key it was given and hands
+    that name out is a get-or-create: the store is guarded by `key not in table` (or is a setdefault).  Without the guard every call
+    creates a new name for the same key; the names handed out before lose the entry that defines them."""
+    obs = []
+    n = 0
+    for f in repo.functions:
+        if f.relpath.startswith(SCOPE_EXCLUDE) or f.cls is None or not f.params():
+            continue
+        selfn = f.params()[0]
+        from ..cfg import cfg_of as _cfg
+        from .validate import controlling_tests as _ct
+        from ..shape import conjuncts as _cj
+        stores = [st for st in walk_no_nested(f.node) if isinstance(st, ast.Assign) and len(st.targets) == 1 and isinstance(st.targets[0], ast.Subscript)
+                  and isinstance(st.targets[0].value, ast.Attribute) and isinstance(st.targets[0].value.value, ast.Name) and st.targets[0].value.value.id == selfn
+                  and isinstance(st.targets[0].slice, ast.Name) and st.targets[0].slice.id in f.params()]
+        if not stores:
+            continue
+        defs = None
+        for st in stores:
+            from ..dataflow import Defs as _Defs
+            defs = defs or _Defs(f.node, selfn)
+            fresh = any(r.startswith("call:") and r[5:].split(".")[-1] in ("get_unique_var", "get_unique_name") for r in defs.roots(st.value))
+            if not fresh:
+                continue
+            table, keyn = src(st.targets[0].value), st.targets[0].slice.id
+            # handed out: some return mentions the table entry or the stored value
+            rets = [r.value for r in walk_no_nested(f.node) if isinstance(r, ast.Return) and r.value is not None]
+            handed = any(src(st.targets[0]) in src(r) or (isinstance(st.value, ast.Name) and any(isinstance(x, ast.Name) and x.id == st.value.id for x in ast.walk(r))) for r in rets)
+            if not handed:
+                continue
+            n += 1
+            c = _cfg(f.node)
+            node = c.node_of(st)
+            facts = []
+            if node is not None:
+                for t, reach in _ct(c, node):
+                    if isinstance(t.ast, ast.expr) and isinstance(reach, bool):
+                        facts += _cj(t.ast, reach)
+            guarded = any(isinstance(fa, ast.Compare) and len(fa.ops) == 1 and src(fa.left) == keyn and src(fa.comparators[0]) == table and
+                          ((isinstance(fa.ops[0], ast.NotIn) and tr) or (isinstance(fa.ops[0], ast.In) and not tr)) for fa, tr in facts)
+            in_handler = any(isinstance(a, ast.ExceptHandler) for a in ancestors(st))
+            key = f"{f.relpath}::{f.qualname}::get-or-create::{table}"
+            if guarded or in_handler:
+                obs.append(Ob("G3-get-or-create", key, f.relpath, st.lineno, f.qualname, True, f"a fresh name is created for `{keyn}` only if `{table}` has none yet"))
+            else:
+                obs.append(Ob("G3-get-or-create", key, f.relpath, st.lineno, f.qualname, False,
+                              f"`{src(st)[:70]}` stores a fresh name for `{keyn}` on every call: a second request for the same key replaces the name handed out before, whose defining "
+                              "equation / entry is lost"))
+    obs.append(Ob("G3-get-or-create", "repo::get-or-create-census", "utils/identifiers.py", 1, "", True, f"{n} get-or-create method(s) examined", trivial=True))
+    return obs
+
+
+def mut_get_or_create(repo: Repo) -> List[Mutant]:
+    def tr(tree):
+        fn = find_def(tree, "LatticeIdeal.get_inverse_symbol")
+        if fn is None:
+            return False
+        for i, st in enumerate(fn.body):
+            if isinstance(st, ast.If) and "not in" in src(st.test) and "inverse_symbols" in src(st.test):
+                fn.body[i:i + 1] = st.body
+                return True
+        return False
+    ov = mutate_module(repo, "invariants/lattice_ideal.py", tr)
+    return [Mutant("fresh-inverse-symbol-on-every-call", ov, "fire", "get-or-create", control=True)] if ov else []
+
+
 def mut_resolve(repo: Repo) -> List[Mutant]:
     ov = text_mutant(repo, "program/transformer/conditions_to_arithm.py", "support = assign.distribution.get_support()", "support = dist_assign.get_assign_support()")
     return [Mutant("method-that-does-not-exist", ov, "fire", "DistAssignment.get_assign_support", control=True)] if ov else []
 
 
 RULES = {
+    "GETORCREATE": Rule("G3-get-or-create", rule_get_or_create, 2, "a fresh name stored under a given key and handed out is created only if the table has no entry for the key", mut_get_or_create, soft=True),
     "ARITY": Rule("E-arity", rule_arity, 100, "calls that resolve to one function of the repository pass arguments its signature accepts", mut_arity, soft=True),
     "RESOLVE": Rule("E-resolve", rule_resolve, 10, "a method called on a freshly constructed object of a repository class is defined in that class's hierarchy", mut_resolve, soft=True),
     "EXCEPT": Rule("E-except", rule_except_discipline, 3, "every exception handler re-raises on all its paths, or is a reviewed complete fallback", mut_except_discipline),
